@@ -558,3 +558,72 @@ def ob_graph3(tri: int, a1: int, a2: int, q0: int, q1: int, q2: int, w0: bool, w
 
 # (ob_graph3_accept_on_hitl_subclass was removed once the HITL-flag defect was repaired in /repo (a6b6f65): ob_graph3 no longer
 #  excludes the sub_only3 class, so it checks strictly more on a superset; the two-step twins are kept because they are cheap.)
+
+
+# --------------------------------------------------------------------------------------------------------------
+# through the real Workflow object: skip_graph_checks is a property of the INSTANCE
+# --------------------------------------------------------------------------------------------------------------
+from workflows import Workflow as _Workflow, step as _step  # noqa: E402
+
+
+def _instance_wf(g: int):
+    """a FRESH class per scenario (whatever a class remembers about earlier validations must come from THIS scenario's instances, not from
+    another path explored in the same interpreter): (class, name of the graph check its graph fails)"""
+    if g == 0:
+        class UnreachableWF(_Workflow):
+            """s1 is fed only by itself: unreachable from the StartEvent (passes the event-connectivity rules: EvB is produced and consumed)"""
+
+            @_step
+            async def s0(self, ev: StartEvent) -> StopEvent:
+                return StopEvent()
+
+            @_step
+            async def s1(self, ev: EvB) -> EvB | StopEvent:
+                return StopEvent()
+
+        return UnreachableWF, "reachability"
+
+    class DeadEndWF(_Workflow):
+        """s1 only ever produces its own input: it can never lead to an output"""
+
+        @_step
+        async def s0(self, ev: StartEvent) -> EvA | StopEvent:
+            return StopEvent()
+
+        @_step
+        async def s1(self, ev: EvA) -> EvA:
+            return EvA()
+
+    return DeadEndWF, "dead_end"
+
+
+@obligation(quick=120, thorough=300, partitions_quick=["g == 0", "g == 1"], partitions_thorough=[f"g == {g} and n == {n}" for g in (0, 1) for n in (2, 3)],
+            what="Workflow(skip_graph_checks=...).validate() on SEVERAL instances of one class, one after the other: each instance is accepted or "
+                 "rejected on its OWN skip set (a graph with an unreachable / dead-end step is accepted exactly by the instances that skip that "
+                 "check), whatever instances of the class were validated before it",
+            bounds={"classes": "unreachable step / dead-end step", "instances in a row": "2 (thorough 3)",
+                    "skip set of each": "{} / {the needed check} / {another check} / {both}"})
+def ob_instances_validate_on_their_own_skips(g: int, n: int, k0: int, k1: int, k2: int) -> bool:
+    """
+    pre: 0 <= g <= 1 and 2 <= n <= NINST and 0 <= k0 <= 3 and 0 <= k1 <= 3 and 0 <= k2 <= 3 and (n > 2 or k2 == 0)
+    post: _
+    """
+    g, n = cint(g, 0, 1), cint(n, 2, 3)
+    ks = [cint(k, 0, 3) for k in (k0, k1, k2)][:n]
+    with untraced():
+        cls, needed = _instance_wf(g)
+        other = "dead_end" if needed == "reachability" else "reachability"
+        for k in ks:
+            skips = set(([needed] if k & 1 else []) + ([other] if k & 2 else []))
+            wf = cls(timeout=None, skip_graph_checks=skips)
+            try:
+                wf.validate()
+                accepted = True
+            except (WorkflowValidationError, WorkflowConfigurationError):
+                accepted = False
+            if accepted != bool(k & 1):
+                return False
+        return True
+
+
+NINST = B(2, 3)
